@@ -11,6 +11,8 @@ import bounded.ttp_plan  # noqa: E402
 import bounded.control  # noqa: E402
 import bounded.packing_validate  # noqa: E402
 import bounded.qap  # noqa: E402
+import bounded.tsplib  # noqa: E402
+import contracts.tsplib  # noqa: E402
 import contracts.control  # noqa: E402
 import bounded.bl_reference  # noqa: E402
 import bounded.objectives_oracle  # noqa: E402
@@ -143,6 +145,18 @@ PLANS["C09"] = Plan(
                  "numba keeps the int64 accumulator for unsigned element types (typing observed in the design round)"],
 )
 
+PLANS["C18"] = Plan(
+    "C18", "other",
+    extra=[contracts.tsplib.prove_c18],
+    bounded=[bounded.tsplib.harness],
+    explanation="proved: the operation DAGs of __nint, __coord_to_rad, __dist_2deuc, __dist_2dceil, __dist_att, __dist_loglat "
+                "(read from /repo, int = truncation, sqrt/cos/acos uninterpreted) are identical to the TSPLIB95 definitions. "
+                "bounded: write/read round trip, the four explicit formats under random wrapping, coordinate instances vs an "
+                "independent implementation; exhaustive over the data: all 31 shipped optimal tours",
+    assumptions=["GEO uses truncating degree extraction, PI = 3.141592, RRR = 6378.388 (the reading of TSPLIB95 that reproduces "
+                 "the published optima)", "index walkers of the explicit formats and the tokenizer: bounded only"],
+)
+
 PLANS["C14"] = Plan(
     "C14", "proof",
     functions=[E1 + ":__move_down", E1 + ":__move_left", E1 + ":_decode",
@@ -180,6 +194,11 @@ PLANS["C05"] = Plan(
 
 
 META = {
+    "C18": {"text": "coordinate distance functions proved identical (operation by operation) to the TSPLIB95 formulas; explicit "
+                    "formats, wrapping, round trip checked by a bounded harness; shipped tours checked exhaustively",
+            "note": "level 'other': formula identity is a proof over uninterpreted sqrt/cos/acos/trunc; parsing is bounded",
+            "technique": "contract-based deductive verification of straight-line float code (DAG identity) + bounded monitor + "
+                         "exhaustive check of shipped data"},
     "C09": {"text": "objective kernel proved equal to the flow-distance double sum without overflow for all matrices/permutations/"
                     "dtypes; parser and bounds clauses decided by a bounded harness (random wrappings, all permutations n <= 6)",
             "note": "level 'other': proof for the kernel, bounded for text parsing (string operations) and for the bound "
